@@ -16,3 +16,10 @@ func c19Extra(r *Run) error {
 		"every string of up to three pieces from {backslash, quote, space, two spaces, tab, newline, a, : , { } [ ] é, escaped backslash, escaped quote} as a value, as a key and inside an array, x three indentations: about 39 000 JSON texts")
 	return nil
 }
+
+// c14Extra: the battery of adversarial filter values runs with every check, not only as a replay.
+func c14Extra(r *Run) error {
+	r.boundedGoTest("C14-battery", "adversarial filter values through the real translator: no SQL outside a string literal or quoted identifier, every literal closed (a refusal is fine)",
+		"18 first values (quotes at either end, runs of quotes, backslash-quote, comment marks) x 4 second values carrying OR 1=1 x 3 filter shapes, and 6 filter lists with single-quoted value tokens, signed strings and 62-byte names")
+	return nil
+}
